@@ -257,7 +257,8 @@ def _convolve(data, filt, mode="full", strides=None, multi_channel=False):
     # Normalize shapes.
     data = data.reshape((B, c_i) + m)
     filt = filt.reshape((c_o, c_i) + n)
-    output = np.zeros((B, c_o) + p, dtype=data.dtype)
+    dtype = np.result_type(data.dtype, filt.dtype)
+    output = np.zeros((B, c_o) + p, dtype=dtype)
     slc = tuple(slice(None, None, s_d) for s_d in s)
 
     for k in range(B):
@@ -286,7 +287,8 @@ def _convolve_data_adjoint(
     # Normalize shapes.
     output = output.reshape((B, c_o) + p)
     filt = filt.reshape((c_o, c_i) + n)
-    data = np.zeros((B, c_i) + m, dtype=output.dtype)
+    dtype = np.result_type(output.dtype, filt.dtype)
+    data = np.zeros((B, c_i) + m, dtype=dtype)
     slc = tuple(slice(None, None, s_d) for s_d in s)
     if mode == "full":
         output_kj = np.zeros(
@@ -342,7 +344,8 @@ def _convolve_filter_adjoint(
         else:
             adjoint_mode = "full"
 
-    filt = np.zeros((c_o, c_i) + n, dtype=output.dtype)
+    dtype = np.result_type(output.dtype, data.dtype)
+    filt = np.zeros((c_o, c_i) + n, dtype=dtype)
     for k in range(B):
         for j in range(c_o):
             for i in range(c_i):
